@@ -20,6 +20,8 @@ Definition label_eqb (a b : label) : bool :=
   | LLoad v, LLoad w => status_eqb v w
   | LSwap n o, LSwap n' o' => status_eqb n n' && status_eqb o o'
   | LStore v, LStore w => status_eqb v w
+  (* a swap whose old value the code does not look at and a store are the same write *)
+  | LSwap n _, LStore v | LStore v, LSwap n _ => status_eqb n v
   | LPopN b k, LPopN b' k' => list_eqb Nat.eqb b b' && Bool.eqb k k'
   | LLen n, LLen m => Nat.eqb n m
   | LInvB b, LInvB b' => list_eqb Nat.eqb b b'
